@@ -87,9 +87,7 @@ func (i *index) removeRef(key string) {
 func (i *index) delete(key string, item map[string]*types.Item) error {
 	i.removeRef(key)
 
-	_, err := i.keySchema.GetKey(i.Table.AttributesDef, item)
-
-	return err
+	return nil
 }
 
 func (i *index) lessKey(x, y int) bool {
